@@ -162,6 +162,10 @@ def c15(res, tier, seed, replay):
     ne2e, hists, steps = (4, 6, 60) if tier == "quick" else (12, 12, 120)
     for s in range(ne2e):
         runs.append({"name": f"e2e-{s}", "args": ["-mode", "e2e", "-seed", seed * 100 + s, "-hist", hists, "-steps", steps]})
+    # thousand-point requests (per-shard maximum 3000): count identity and failed ranges when a stored id sits in the middle
+    for s in range(1 if tier == "quick" else 4):
+        runs.append({"name": f"e2e-big-{s}", "timeout": 1200, "tlc_timeout": 1800,
+                     "args": ["-mode", "e2e", "-big", "-seed", seed * 100 + 50 + s, "-hist", 2, "-steps", 10]})
     results = drive_and_validate(res, runs, module="PlacementTrace", cmd="placement", workers=min(vlib.NCPU, 12))
 
     # ---- coverage (counted from the traces and from what TLC printed; no verdict is taken here)
